@@ -82,6 +82,14 @@ def cases(ctx):
     out.append({"kind": "code-arg", "rom": "low", "spec": {"t": "twin", "labels": False},
                 "src": f"*={org:#08x}\n.macro w(v, body) {{\n.db v\n{{{{body}}}}\n.db v\n{{{{body}}}}\n}}\nw(7, {{\nnop\nlda.w #0x1234\n}})\n",
                 "twin_src": f"*={org:#08x}\n.db 7\nnop\nlda.w #0x1234\n.db 7\nnop\nlda.w #0x1234\n"})
+    # a code-block argument that DEFINES names (a label, a `=` constant) which the macro body uses outside the splice: the
+    # block's statements belong to the application's own block (also under an outer definition of the same name)
+    for outer in ("", "zz_entry:\nzz_len = 9\nnop\n"):
+        out.append({"kind": "code-arg-defines", "rom": "low", "spec": {"t": "twin", "labels": False},
+                    "src": (f"*={org:#08x}\n{outer}.macro zz_rt(tag, code) {{\n.db tag\n{{{{ code }}}}\n.dw zz_entry & 0xFFFF\n.db zz_len\n}}\n"
+                            "zz_rt(1, {\nnop\nzz_entry:\nzz_len = 2\nrts\n})\nzz_rt(2, {\nzz_entry:\nnop\nnop\nzz_len = 3\n})\n"),
+                    "twin_src": (f"*={org:#08x}\n{outer}{{\n.db 1\nnop\nzz_e1:\nrts\n.dw zz_e1 & 0xFFFF\n.db 2\n}}\n"
+                                 "{\n.db 2\nzz_e2:\nnop\nnop\n.dw zz_e2 & 0xFFFF\n.db 3\n}\n")})
     # the FIRST macro definitions of a program inside a nested construct (a taken .if / else branch, a block, a named scope,
     # an included file): the definition is known to everything that follows the construct
     for wname, w in (("if", ".if 1 {\n%s}\n"), ("else", ".if 0 {\nnop\n} else {\n%s}\n"), ("block", "{\n%s}\n"),
@@ -159,7 +167,7 @@ def cases(ctx):
     out.append({"kind": "own-definition:after-other-program", "rom": "low", "earlier_src": earlier,
                 "src": f"*={org:#08x}\n.macro r(n) {{\n.db n\n}}\nr(7)\n", "twin_src": f"*={org:#08x}\n.db 7\n",
                 "spec": {"t": "twin", "labels": False}})
-    return core.mark_must_assemble(out, {'mixed-arg-kinds', 'splice-through-helper', 'deferred-arg-names', 'width-per-application', 'recursive', 'capture', 'code-arg', 'empty-expansion', 'defined-in', 'own-definition', 'local-labels'})
+    return core.mark_must_assemble(out, {'mixed-arg-kinds', 'splice-through-helper', 'deferred-arg-names', 'width-per-application', 'recursive', 'capture', 'code-arg', 'empty-expansion', 'defined-in', 'own-definition', 'local-labels', 'code-arg-defines'})
 
 
 def instantiate(gen_q):
